@@ -24,8 +24,10 @@ class BM(mesa.Model):
         super().__init__()
         self.init_kwargs = dict(kwargs)
         g = kwargs.get
-        self.n, self.stop, self.ic, self.sc = g("n", 2), g("stop", None), g("ic", 0), g("sc", 1)
-        self.ar, self.churn, self.k = g("ar", 1), g("churn", 0), g("k", 0)
+        def i(v):   # parameters may arrive as numpy scalars / 0-d arrays: the script works on plain ints
+            return v if v is None else int(v)
+        self.n, self.stop, self.ic, self.sc = i(g("n", 2)), i(g("stop", None)), i(g("ic", 0)), i(g("sc", 1))
+        self.ar, self.churn, self.k = i(g("ar", 1)), i(g("churn", 0)), i(g("k", 0))
         self.log = []
         self.t = 0
         areps = {"sv": lambda a: a.model.steps * 1000 + a.val, "val": "val"} if self.ar else None
